@@ -17,6 +17,7 @@ package main
 import (
 	"encoding/json"
 	"fmt"
+	"os"
 	"reflect"
 	"sort"
 	"strings"
@@ -24,10 +25,54 @@ import (
 	"verif/harness/lib"
 )
 
-// V is a chunk value in case / observation JSON.
+// V is a chunk value in case / observation JSON: a string, or a map whose values are
+// strings or maps again (T: the Go type of this map is map[string]string, not map[string]any).
+// JSON: "abc" | {"m": {"aa": "x", "ab": {"m": {...}, "t": true}}}; the older form {"s": "abc"}
+// is still read.
 type V struct {
-	S *string           `json:"s,omitempty"`
-	M map[string]string `json:"m,omitempty"`
+	S *string
+	M map[string]*V
+	T bool
+}
+
+func (v *V) MarshalJSON() ([]byte, error) {
+	if v.S != nil {
+		return json.Marshal(*v.S)
+	}
+	m := v.M
+	if m == nil {
+		m = map[string]*V{}
+	}
+	if v.T {
+		return json.Marshal(struct {
+			M map[string]*V `json:"m"`
+			T bool          `json:"t"`
+		}{m, true})
+	}
+	return json.Marshal(struct {
+		M map[string]*V `json:"m"`
+	}{m})
+}
+
+func (v *V) UnmarshalJSON(raw []byte) error {
+	var s string
+	if err := json.Unmarshal(raw, &s); err == nil {
+		v.S = &s
+		return nil
+	}
+	var o struct {
+		S *string       `json:"s"`
+		M map[string]*V `json:"m"`
+		T bool          `json:"t"`
+	}
+	if err := json.Unmarshal(raw, &o); err != nil {
+		return err
+	}
+	v.S, v.M, v.T = o.S, o.M, o.T
+	if v.S == nil && v.M == nil {
+		v.M = map[string]*V{}
+	}
+	return nil
 }
 
 func vStr(s string) *V { return &V{S: &s} }
@@ -36,9 +81,16 @@ func (v *V) toGo() any {
 	if v.S != nil {
 		return *v.S
 	}
+	if v.T {
+		m := map[string]string{}
+		for k, x := range v.M {
+			m[k] = *x.S
+		}
+		return m
+	}
 	m := map[string]any{}
 	for k, x := range v.M {
-		m[k] = x
+		m[k] = x.toGo()
 	}
 	return m
 }
@@ -47,23 +99,58 @@ func fromGo(x any) *V {
 	switch t := x.(type) {
 	case string:
 		return vStr(t)
-	case map[string]any:
-		m := map[string]string{}
+	case map[string]string:
+		m := map[string]*V{}
 		for k, e := range t {
-			if s, ok := e.(string); ok {
-				m[k] = s
-			} else {
-				m[k] = fmt.Sprintf("<unrenderable %T>", e)
-			}
+			m[k] = vStr(e)
+		}
+		return &V{M: m, T: true}
+	case map[string]any:
+		m := map[string]*V{}
+		for k, e := range t {
+			m[k] = fromGo(e)
 		}
 		return &V{M: m}
 	}
 	return vStr(fmt.Sprintf("<unrenderable %T>", x))
 }
 
+// nested: some value of the map is a map itself
+func (v *V) nested() bool {
+	for _, x := range v.M {
+		if x.S == nil {
+			return true
+		}
+	}
+	return false
+}
+
+// nestedModel: print cases for the model whose maps are lists of flattened entries
+// (Model/StreamOpsN.v); otherwise for the flat model, which cannot take nested maps
+var nestedModel = os.Getenv("VERIF_C04_N") != ""
+
+func coqKeyRest(path []int, mark bool) string {
+	if len(path) == 0 {
+		if mark {
+			return "KMap"
+		}
+		return "KStr"
+	}
+	return lib.CoqApp("KSub", lib.CoqN(uint64(path[0])), coqKeyRest(path[1:], mark))
+}
+
 func (v *V) coq() string {
 	if v.S != nil {
 		return lib.CoqApp("VS", lib.CoqStr(*v.S))
+	}
+	if nestedModel {
+		es := flatten(v.toGo2())
+		items := make([]string, len(es))
+		for i, e := range es {
+			k := lib.CoqPair(lib.CoqN(uint64(e.path[0])), coqKeyRest(e.path[1:], e.mark))
+			items[i] = lib.CoqPair(k, lib.CoqStr(e.val))
+		}
+		return lib.CoqApp("VM", lib.CoqList(items))
 	}
 	ks := make([]string, 0, len(v.M))
 	for k := range v.M {
@@ -72,9 +159,26 @@ func (v *V) coq() string {
 	sort.Slice(ks, func(i, j int) bool { return keyNum(ks[i]) < keyNum(ks[j]) })
 	items := make([]string, len(ks))
 	for i, k := range ks {
-		items[i] = lib.CoqPair(lib.CoqN(uint64(keyNum(k))), lib.CoqStr(v.M[k]))
+		s := "<nested>"
+		if v.M[k].S != nil {
+			s = *v.M[k].S
+		}
+		items[i] = lib.CoqPair(lib.CoqN(uint64(keyNum(k))), lib.CoqStr(s))
 	}
 	return lib.CoqApp("VM", lib.CoqList(items))
+}
+
+// toGo2: the map as a map[string]any whatever its Go type
+func (v *V) toGo2() map[string]any {
+	m := map[string]any{}
+	for k, x := range v.M {
+		if x.S != nil {
+			m[k] = *x.S
+		} else {
+			m[k] = x.toGo2()
+		}
+	}
+	return m
 }
 
 func vEqual(a, b *V) bool {
@@ -84,10 +188,16 @@ func vEqual(a, b *V) bool {
 	if a.S != nil {
 		return *a.S == *b.S
 	}
-	if len(a.M) != len(b.M) {
+	if len(a.M) != len(b.M) || a.T != b.T {
 		return false
 	}
-	return len(a.M) == 0 || reflect.DeepEqual(a.M, b.M)
+	for k, x := range a.M {
+		y, ok := b.M[k]
+		if !ok || !vEqual(x, y) {
+			return false
+		}
+	}
+	return true
 }
 
 type Case struct {
@@ -252,6 +362,9 @@ type engine struct{}
 
 func (engine) ID() string { return "C04" }
 func (engine) CoqHeader() string {
+	if nestedModel {
+		return "From Eino Require Import Base.Util Model.Paradigm Model.StreamOpsN Model.ParadigmProgN Model.ParadigmSpecN Corr.C04N.\n"
+	}
 	return "From Eino Require Import Base.Util Model.Paradigm Model.StreamOps Model.ParadigmProg Model.ParadigmSpec Corr.C04.\n"
 }
 func (engine) CoqCaseType() string { return "ccase" }
@@ -343,6 +456,8 @@ func (engine) Run(ci any) lib.Result {
 
 	// ---- model term
 	tags := []string{"kind:" + c.Kind, fmt.Sprintf("chunks:%d", len(c.Chunks))}
+	nested, typed := caseNesting(c)
+	tags = append(tags, fmt.Sprintf("nested:%v", nested), fmt.Sprintf("typedmap:%v", typed))
 	cls := "fail"
 	if allOK {
 		cls = "ok"
@@ -406,8 +521,42 @@ func (engine) Run(ci any) lib.Result {
 		// copied / merged / filtered on the way
 		res.Nontrivial = st.derived > 0 || st.pars > 0 || st.branches > 0 || st.keys > 0
 	}
+	if nested && !nestedModel {
+		// nested maps are outside the universe of the model (strings and flat maps): the case is
+		// judged by the direct oracle alone
+		res.CoqTerm = ""
+	}
 	res.Tags = tags
 	return res
+}
+
+// caseNesting: does the case put a map under a key of a map (an output key around a map
+// producer, a nested value in the input); does it use the map type map[string]string
+func caseNesting(c *Case) (nested, typed bool) {
+	for _, v := range c.Chunks {
+		if v.nested() {
+			nested = true
+		}
+		for _, x := range v.M {
+			if x.T {
+				typed = true
+			}
+		}
+	}
+	if c.Kind == "pack" {
+		return nested, typed || c.Spec.TIn || c.Spec.TOut
+	}
+	c.Prog.walk(func(q *Prog) {
+		if q.W != nil && q.W.Out != nil {
+			if q.Op == "node" && q.N.outMap() || q.Op == "sub" && q.Kids[0].outMap() {
+				nested = true
+			}
+		}
+		if q.N != nil && (q.N.TIn || q.N.TOut) {
+			typed = true
+		}
+	})
+	return
 }
 
 func natStr(n [4]bool) string {
